@@ -85,7 +85,25 @@ def rules():
           (fn('int n = 3; int a[n]; a[0] = 1;'), True), (fn('const int a[3];'), False), (fn('int n = 3; int a[n] = 5;'), False),
           (fn('int x = a.length;', sig='int a'), False), (fn('int x = a[0];', sig='int a'), False), (fn('int x = s.length + s[0];', sig='string s'), True),
           (fn('int x = [].length;'), True), (fn('int x = [][0];'), False)]
+    R += [(t, False) for t in frontend.empty_value_programs()]
     return R
+
+
+def array_mix_programs(rng, quick):
+    """array literals with every mix and order of element kinds, in every consuming position"""
+    texts = {}
+    kinds = ['b', 'i', '1', "'c'", '(b + 1)', '(i + 1)', 'true', '"s"', 'K', '300']
+    uses = ['int[] x = %s;', 'const int[] x = %s;', 'byte[] x = %s;', 'const byte[] x = %s;', 'f(%s);', 'g(%s);', 'int x = %s[0];',
+            'int x = %s.length;', 'const byte[] x = %s is byte[];', 'bool x = %s is bool;', 'write(%s);', 'write(%s[i - 2]);']
+    mixes = [list(m) for n in (1, 2, 3) for m in itertools.product(kinds, repeat=n)]
+    if quick: mixes = rng.sample(mixes, 260)
+    pre = ('int f(int[] a) { return 1; } bool f(const int[] a) { return true; } byte f(const byte[] a) { return 2; }\n'
+           'int g(byte[] a) { return 1; } bool g(const byte[] a) { return true; } string g(const int[] a) { return "s"; }\n')
+    for j, m in enumerate(mixes):
+        for u in (uses if not quick else rng.sample(uses, 3)):
+            texts['al%d_%d' % (j, uses.index(u))] = (pre + 'empty @is_you() { byte b = 1; int i = 2; const int K = 7; ' +
+                                                    (u % ('[' + ', '.join(m) + ']')) + ' }')
+    return texts
 
 
 def run(ctx):
@@ -98,18 +116,7 @@ def run(ctx):
         for j in range(3): texts['y%d_%d' % (i, j)] = frontend.type_mutate(ctx.rng, src)
     RL = rules()
     for i, (src, _) in enumerate(RL): texts['r%d' % i] = src
-    # array literals with every mix and order of element kinds, in every consuming position
-    kinds = ['b', 'i', '1', "'c'", '(b + 1)', '(i + 1)', 'true', '"s"', 'K', '300']
-    uses = ['int[] x = %s;', 'const int[] x = %s;', 'byte[] x = %s;', 'const byte[] x = %s;', 'f(%s);', 'g(%s);', 'int x = %s[0];',
-            'int x = %s.length;', 'const byte[] x = %s is byte[];', 'bool x = %s is bool;', 'write(%s);']
-    mixes = [list(m) for n in (1, 2, 3) for m in itertools.product(kinds, repeat=n)]
-    if ctx.quick: mixes = ctx.rng.sample(mixes, 260)
-    pre = ('int f(int[] a) { return 1; } bool f(const int[] a) { return true; } byte f(const byte[] a) { return 2; }\n'
-           'int g(byte[] a) { return 1; } bool g(const byte[] a) { return true; } string g(const int[] a) { return "s"; }\n')
-    for j, m in enumerate(mixes):
-        for u in (uses if not ctx.quick else ctx.rng.sample(uses, 3)):
-            texts['al%d_%d' % (j, uses.index(u))] = (pre + 'empty @is_you() { byte b = 1; int i = 2; const int K = 7; ' +
-                                                    (u % ('[' + ', '.join(m) + ']')) + ' }')
+    texts.update(array_mix_programs(ctx.rng, ctx.quick))
     frontend.tc_suite(ctx, texts)
     frontend.tc_suite(ctx, {k: v for k, v in list(texts.items())[:ctx.budget(300, 3000)]}, lint=True)
     # documented rules: accept / reject
